@@ -143,7 +143,7 @@ def roots(tier, seed):
     for n in ns:
         for obj in ["const", "zero", "lin", "abs"]:
             for cons in ["none", "lin_le", "lin_mixed", "ball_le", "ball_eq"]:
-                for pats in [("free",) * n, ("wide",) * n, ("oddw", "oddn")[:n]]:
+                for pats in [("free",) * n, ("wide",) * n, ("oddw", "oddn", "oddw")[:n]]:
                     for debug in (False, True):
                         for r0 in (2.0 ** -10, 2.0 ** -1060):
                             for scale in ((False, True) if pats[0] != "free" else (False,)):
